@@ -235,11 +235,12 @@ class Lam:
 class Call(Node):
     """library function / method call; recv=None for function form"""
 
-    def __init__(self, name, args, recv=None):
+    def __init__(self, name, args, recv=None, kwargs=None):
         self.name, self.args, self.recv = name, args, recv
+        self.kwargs = kwargs or []          # (name, node) for calls of user-defined functions
 
     def text(self):
-        a = ', '.join(x.text() for x in self.args)
+        a = ', '.join([x.text() for x in self.args] + ['%s => %s' % (k, v.text()) for k, v in self.kwargs])
         if self.recv is not None:
             return '%s.%s(%s)' % (self.recv.p(), self.name, a)
         return '%s(%s)' % (self.name, a)
@@ -248,7 +249,8 @@ class Call(Node):
         user = env.func(self.name) if self.recv is None else None
         if user is not None:
             args = [a.ev(env) for a in self.args]      # eager arguments in the caller's environment
-            return user(*args)
+            kw = {k: v.ev(env) for k, v in self.kwargs}
+            return user(*args, **kw)
         vals = []
         if self.recv is not None:
             vals.append(self.recv.ev(env))
@@ -454,10 +456,12 @@ class Def(Node):
         e = env.child()
         fbody = self.fbody
 
-        def closure(*args):
-            ce = e.child()
+        def closure(*args, **kw):
+            ce = e.child()                       # a fresh scope per invocation: nothing survives between calls
             for i, a in enumerate(args):
                 ce.set('$%d' % (i + 1), a)
+            for k, v in kw.items():
+                ce.set('$' + k, v)
             return fbody.ev(ce)
         e.funcs[self.name] = closure
         return self.body.ev(e)
